@@ -43,6 +43,11 @@ TREES["isolate"] = [{"p": "r1/a/f1", "k": "file", "c": ["base", 3000, 1]}, {"p":
 TREES["pair_big"] = TREES["pair"] + [
     {"p": "r/fill/%s%03d_%d" % ("n" * 50, i, j), "k": "file", "c": ["lit", "filler %03d" % i]} for i in range(100) for j in (1, 2)]
 TREE_OPTS["pair_big"] = (["-o", "/dev/full"], ["r"], ["r/a/f1", "r/b/f2"])
+# one group of 70 files (a large group may be inspected in batches or in parallel): the changed member is the first, one
+# around position 64, or the last of the group
+TREES["group70"] = [{"p": "r/g/f%02d" % i, "k": "file", "c": ["base", 3000, 1]} for i in range(70)] + [
+    {"p": "r/g/other", "k": "file", "c": ["base", 3000, 5]}]
+TREE_OPTS["group70"] = ([], ["r"], ["r/g/f00", "r/g/f15", "r/g/f63", "r/g/f64", "r/g/f68", "r/g/f69"])
 MUTATIONS = ["rewrite_same_len", "rewrite_other_len", "append", "truncate", "delete", "recreate_same", "recreate_other",
              "to_directory", "to_dangling_symlink", "to_symlink_fresh", "to_symlink_old", "to_fifo", "touch"]
 OPS = ["remove", "link", "softlink", "dedupe", "move"]
@@ -66,6 +71,8 @@ def cases(tier, seed):
         for f in (TREE_OPTS[t][2] if t in TREE_OPTS else ("r/a/f1", "r/b/f2")):
             for m in MUTATIONS:
                 if t == "pair_big" and tier == "quick" and m not in ("rewrite_same_len", "recreate_other", "touch"):
+                    continue
+                if t == "group70" and m not in (("rewrite_same_len", "recreate_other", "to_symlink_old") if tier == "quick" else MUTATIONS[:11]):
                     continue
                 out.append({"tree": t, "f": f, "mutation": m, "tier": tier})
     # a file system that keeps whole seconds only (ext3, FAT, many network mounts): `group` starts in the second half of
@@ -373,6 +380,8 @@ def evaluate(case):
             positions = [("between", None)]
         if case["mutation"] == "rewrite_whole_second":
             positions = [("between", None)]
+        if case["tree"] == "group70":
+            positions = [("between", None)] if tier == "quick" else [("pause", last_access + 1), ("pause", K - 1), ("between", None)]
         if case.get("only"):
             positions = [tuple(case["only"][0])]
             ops = [case["only"][1]]
@@ -466,3 +475,6 @@ def evaluate(case):
 
 
 RULE += ' Since rounds 10-11 also: a rewrite that carries a whole-second time (file systems with 1 s granularity) after `group` started in the second half of a second; changes during the dedupe run compare only contents the tree had before the command started or that the change wrote.'
+
+
+RULE += " Since round 12 also: one group of 70 files, the changed member being the first, the 16th, the 64th, the 65th, the 69th or the last of the report order."
